@@ -3,6 +3,7 @@
   line, one canonical answer per line.  `lake env lean --run DriverC20.lean`.
 -/
 import QV.Model.Encodings
+import QV.Model.EncodingsB
 open QV QV.Enc
 
 structure Rd where
@@ -27,6 +28,8 @@ def nextBits (k : Nat) : P (List Bool) := do
   pure out.reverse
 
 def showGates (gs : List GD) : String := ";".intercalate (gs.map GD.show)
+
+def showGatesB (gs : List BG) : String := ";".intercalate (gs.map BG.show)
 
 def showPairs (rows : List (List (Nat × Nat))) : String :=
   "|".intercalate (rows.map fun row => " ".intercalate (row.map fun p => s!"{p.1},{p.2}"))
@@ -88,6 +91,44 @@ def handle : P String := do
     let n ← nextNat
     pure (" ".intercalate ((hsInits n).map showBits) ++ " # " ++
       " ".intercalate ((List.range (n - 1)).map (fun i => showBits (hsInitClosed n (i + 1)))))
+  | "PHASE" =>
+    -- phase_encoder on n qubits; rot: 0 = RX, 1 = RY, 2 = RZ
+    let n ← nextNat
+    let r ← nextNat
+    pure (showGatesB (phaseEnc n (if r == 0 then .RX else if r == 1 then .RY else .RZ)))
+  | "HS" =>
+    -- binary_encoder(·, "hyperspherical") on n qubits, real / complex data
+    let n ← nextNat
+    let c ← nextNat
+    pure (showGatesB (hsEncoder n (c != 0)))
+  | "HSWALK" =>
+    -- the basis states in the order in which the hyperspherical encoder writes them
+    let n ← nextNat
+    pure (" ".intercalate ((hsWalk n).map showBits))
+  | "HOPF" =>
+    let n ← nextNat
+    pure (showGatesB (hopf n))
+  | "HWB" =>
+    let n ← nextNat
+    let k ← nextNat
+    let o ← nextNat
+    let f ← nextNat
+    let c ← nextNat
+    let pc ← nextNat
+    pure (showGatesB (hwEncoderB n k (o != 0) (f != 0) (c != 0) (pc != 0)))
+  | "MAT" =>
+    -- matrix of a descriptor over the integers with c = 2, s = 3, p = 5, m = 7, i = 11,
+    -- lp0 = 13, lm0 = 17, lp1 = 19, lm1 = 23 (decoded by prime factorisation in the harness)
+    let k ← nextNat
+    let neg ← nextNat
+    let dbl ← nextNat
+    let kind : BK := match k with
+      | 0 => .X | 1 => .RX | 2 => .RY | 3 => .RZ | 4 => .RBS | 5 => .U3 | _ => .U3L
+    let P : Par2 Int := { c := fun _ => 2, s := fun _ => 3, p := fun _ => 5, m := fun _ => 7, i := 11,
+                          lp0 := 13, lm0 := 17, lp1 := 19, lm1 := 23 }
+    let g := BG.sem P { kind := kind, q0 := 0, q1 := 1, neg := neg != 0, dbl := dbl != 0 }
+    let d := 2 ^ g.targets.length
+    pure (";".intercalate ((List.range d).map fun i => " ".intercalate ((List.range d).map fun j => toString (g.mat i j))))
   | "" => pure ""
   | c => pure s!"bad-op {c}"
 
